@@ -24,7 +24,7 @@ import uuid
 
 import numpy as np
 
-from ..data import Data, DataType, FloatData, NumericData
+from ..data import Data, DataType, FloatData, NumericData, TextData
 from ..groups import PropertyGroup
 from ..shared.utils import box_intersect, mask_by_extent, merge_arrays
 from .object_base import ObjectType
@@ -724,11 +724,20 @@ class Drillhole(Points):
                 sort_ind = np.argsort(depths)
 
                 for child in self.children:
-                    if (
-                        isinstance(child, NumericData)
-                        and getattr(child.association, "name", None) == "VERTEX"
-                    ):
+                    if getattr(child.association, "name", None) != "VERTEX":
+                        continue
+
+                    if isinstance(child, NumericData):
                         child.values = child.format_values(child.values)[sort_ind]
+                    elif isinstance(child, TextData) and isinstance(
+                        child.values, np.ndarray
+                    ):
+                        # one entry per vertex, in the order the vertices were added
+                        values = np.r_[
+                            child.values,
+                            [child.nan_value] * (len(sort_ind) - len(child.values)),
+                        ]
+                        child.values = values[sort_ind]
 
                 if self.vertices is not None:
                     self.vertices = self.vertices[sort_ind, :]
